@@ -912,6 +912,10 @@ class Interp:
                 return self.globals[e.id]
             if e.id == "NotImplemented":
                 return NotImpl()
+            # a module-level function passed around as a value (`self._combine(other, _add)`)
+            mi_ = self.prog.modules.get(fi.module)
+            if mi_ is not None and e.id in mi_.functions and mi_.functions[e.id] in self.prog.functions:
+                return OpaqueV(f"func:{mi_.functions[e.id]}")
             return OpaqueV(f"global {e.id}")
         if isinstance(e, ast.Attribute):
             return self.getattr(fi, e, env)
@@ -1293,6 +1297,14 @@ class Interp:
     # ----------------------------------------------------------------- calls
     def call(self, fi: FuncInfo, e: ast.Call, env: Env) -> AV:
         f = e.func
+        if isinstance(f, ast.Name) and isinstance(env.get(f.id), OpaqueV) and env[f.id].why.startswith("func:") \
+                and not any(isinstance(a, ast.Starred) for a in e.args):
+            # a parameter that holds a module-level function: the call is a call of that function
+            target = env[f.id].why[5:]  # type: ignore[union-attr]
+            argv = [self.eval(fi, a, env) for a in e.args]
+            kw = {k.arg: self.eval(fi, k.value, env) for k in e.keywords if k.arg}
+            r = self.apply(fi, e, target, argv, kw)
+            return r if r is not None else OpaqueV(f"call of {target} through a parameter")
         if isinstance(f, ast.Name):
             if f.id == "isinstance" and len(e.args) == 2:
                 return self.isinstance_(fi, e, env)
